@@ -50,6 +50,31 @@ def stream_origins(g, e):
     return out
 
 
+def mask_loop_form(mc):
+    """loop form of Mask::create: for ((_, msd), &duration) in stream.iter().zip(durations) { for _ in
+    0..duration { frames.push(*msd > threshold) } }  ->  (recognised, pushed value, guards)"""
+    meb = ExprBuilder(mc)
+    pushes = [(bb, t) for bb, t in mc.calls() if t["callee"]["k"] == "fndef" and cm.callee_name(t["callee"]).endswith("Vec::<T, A>::push")]
+    if len(pushes) != 1:
+        return None, None, None
+    bb, t = pushes[0]
+    v = meb.at(bb).op(t["args"][1])
+    gs = paths.guards(mc, bb, meb)
+    ok_pred = False
+    if v[0] == "bin":
+        op_, l_, r_ = v[1], v[2], v[3]
+        if op_ == "Lt":
+            op_, l_, r_ = "Gt", r_, l_
+        txt_l = show(l_)
+        ok_pred = (op_ == "Gt" and r_[0] == "arg" and show(r_) == "threshold" and l_[0] == "field" and l_[2] == "1" and
+                   "Zip" in txt_l and "zip(stream, durations)" in txt_l.replace("std::iter::Iterator::", ""))
+    zipg = [g for g in gs if g[0] == "some" and g[1][0] == "call" and "Zip" in g[1][1] and "zip(stream, durations)" in show(g[1]).replace("std::iter::Iterator::", "")]
+    rng = [g for g in gs if g[0] == "some" and g[1][0] == "call" and "Range" in g[1][1]]
+    other = [g for g in gs if g not in zipg and g not in rng]
+    rng_ok = len(rng) == 1 and "start: 0" in show(rng[0][1]) and ".0.1" in show(rng[0][1]) and "Zip" in show(rng[0][1])
+    return bool(ok_pred and len(zipg) == 1 and rng_ok and not other), v, gs
+
+
 def run(ctx):
     ctx.rule("C11-R1", "mask element is `msd > threshold` (strict), msd = second tuple field of the stream element, threshold = the parameter: antitone in the threshold")
     ctx.rule("C11-R2", "per MlpgAdjust::new call in Engine::generator the indices of gv_weight[.], msd_threshold[.] and model_stream(.) agree (0, 1, 2) and the results reach SpeechGenerator's spectrum, lf0, lpf in that order")
@@ -65,9 +90,21 @@ def run(ctx):
     if mc is not None:
         ret = ExprBuilder(mc).local(0)
         clos = [x for x in walk(ret) if x[0] == "agg" and x[1].startswith("closure:")]
+        loop_ok = None
         if len(clos) != 1:
+            # loop form: for ((_, msd), &duration) in stream.iter().zip(durations) { for _ in 0..duration
+            # { frames.push(*msd > threshold) } }
+            loop_ok, v, gs = mask_loop_form(mc)
+            if loop_ok is not None:
+                if loop_ok:
+                    ctx.ok("C11-R1", "mask predicate = (element.1 > threshold), strict; pushed `duration` times per state of `stream` (loop form), unconditionally", mc.loc())
+                    ctx.ok("C11-R1", "the comparison uses Mask::create's threshold parameter", mc.loc())
+                    ctx.ok("C11-R1", "one flag per state of `stream`, expanded by durations", mc.loc())
+                else:
+                    ctx.fail("C11-R1", mc.path, "predicate (loop form)", "the pushed flag is %s under guards %s; expected `element.1 > threshold` for every state of stream.zip(durations), repeated `duration` times" % (show(v)[:120], [(g[0], show(g[1])[:60]) for g in gs]), mc.loc())
+        if len(clos) != 1 and loop_ok is None:
             ctx.fail("C11-R1", mc.path, "predicate closure", "expected one closure in Mask::create, found %d" % len(clos), mc.loc())
-        else:
+        elif len(clos) == 1:
             cb = p.bodies.get(clos[0][1][len("closure:"):])
             r = ExprBuilder(cb).local(0)
             good = False
